@@ -18,7 +18,7 @@ from vmon.libutil import monitored
 
 LEVEL = "exploration"
 SHARDS = {"quick": 16, "thorough": 16}
-MUST = ["bigstream.reads_on_packet_borders", "schedules.cut_inside_header", "schedules.several_packets_per_delivery", "option.show_progress", "option.show_progress.socket", "option.show_progress.file", "option.show_progress.bytes", "kind.bytes_subclass", "filemoved.read-all", "filemoved.seek-end", "filemoved.other-generator", "kind.bytes", "kind.file", "kind.socket", "kind.socketpair", "kind.realfile",
+MUST = ["single_packet_sources", "bigstream.reads_on_packet_borders", "schedules.cut_inside_header", "schedules.several_packets_per_delivery", "option.show_progress", "option.show_progress.socket", "option.show_progress.file", "option.show_progress.bytes", "kind.bytes_subclass", "filemoved.read-all", "filemoved.seek-end", "filemoved.other-generator", "kind.bytes", "kind.file", "kind.socket", "kind.socketpair", "kind.realfile",
         "bigstream.packets", "via_packet_generator", "filepos.written", "filepos.partly-read", "filepos.at-end", "filepos.parsed-once", "file.update_mode", "header.all-zero"]
 RULE = ("each case = (packet list, prefix length k, source kind, read size / recv schedule); the generator is stepped "
         "with next() under a step budget and the yielded sequence compared with the packet list. Enumerated "
@@ -293,6 +293,19 @@ def run(ctx):
                 if item % 7 == 0:
                     run_case(ctx, "file", pkts, stream, k, r=r, via_def=True, sig=("viadef",))
 
+    # ---- 2z. sources whose whole content is exactly ONE packet (incl. the minimal one: a single data byte), any prefix ------
+    for dl in (1, 2, 3, 7, 300):
+        for k in (0, 1, 4, 13):
+            item += 1
+            if not ctx.mine(item):
+                continue
+            pkts, stream = build(rng, [dl], k)
+            for kind, r in (("bytes", None), ("file", None), ("file", 1), ("file", 4096), ("bytesio", None), ("bytesio", 6), ("rawpacketdata", None)):
+                if kind == "rawpacketdata" and k:
+                    continue
+                run_case(ctx, kind, pkts, stream, k, r=r, sig=("single-packet", "L" + str(dl), "k" + str(k)))
+                ctx.count("single_packet_sources")
+            run_case(ctx, "socket", pkts, stream, k, chunks=[len(stream)], sig=("single-packet", "socket"))
     # ---- 3. chunk borders relative to packet borders -------------------------------------------------------
     for trial in range(ctx.size(150, 300000)):
         item += 1
